@@ -384,6 +384,8 @@ def run(ctx):
     ctx.rule("C06.record-name", "Array/zip name the record _recname(is_momentum, dimension) from _check_names' own result and zip names with columns in order")
 
     _columns_rule(ctx, W)
+    _extra_fields_rule(ctx, W, fns)
+    _coordinate_dtypes_rule(ctx, W)
 
     # ---- synonym tables
     mf = facts("src/vector/_methods.py", ctx.repo)
@@ -559,3 +561,124 @@ def _columns_rule(ctx, W):
         raise AnalysisError(f"_array_from_columns (shape mismatch) could not be interpreted: {e}") from None
     ctx.ob("C06.columns", "{x: shape (3,), y: shape (4,)}", ok, msg, None, "src/vector/backends/numpy.py")
     ctx.anchor("column-order cases", n, 24)
+
+
+def _extra_fields_rule(ctx, W, fns):
+    """vector.zip / vector.Array keep every non-coordinate field, in order, whatever their number and position"""
+    ctx.rule("C06.extra-fields", "_check_names on a documented coordinate set mixed with one, two and three non-coordinate fields (charge, pdg, iso) in several positions: every "
+                                 "extra field comes back exactly once, after the coordinates, in the given order, bound to its own column")
+    coord_sets = [("x", "y"), ("pt", "phi"), ("x", "y", "z"), ("rho", "phi", "eta"), ("px", "py", "pz", "E"), ("pt", "phi", "eta", "mass"), ("x", "y", "theta", "tau")]
+    extras_sets = [("charge",), ("charge", "pdg"), ("charge", "pdg", "iso")]
+    n = 0
+    for cs in coord_sets:
+        for ex in extras_sets:
+            for layout in ("after", "before", "mixed"):
+                if layout == "after":
+                    fields = list(cs) + list(ex)
+                elif layout == "before":
+                    fields = list(ex) + list(cs)
+                else:
+                    fields = []
+                    e_it = iter(ex)
+                    for c_ in cs:
+                        fields.append(c_)
+                        nx = next(e_it, None)
+                        if nx is not None:
+                            fields.append(nx)
+                    fields += list(e_it)
+                n += 1
+                label = "_check_names(" + ",".join(fields) + ")"
+                proj = {f: Opaque("col_" + f, "array") for f in fields}
+                I = Interp(W)
+                try:
+                    r = I.call(fns["_check_names"], [proj, list(fields)], {})
+                except PyRaise as e:
+                    ctx.ob("C06.extra-fields", label, False, f"raises {e.exc}", None, "src/vector/backends/awkward_constructors.py")
+                    continue
+                except Undecided as e:
+                    raise AnalysisError(f"_check_names could not be interpreted on {label}: {e}") from None
+                msg = ""
+                try:
+                    _, dimension, names, columns = r
+                except Exception:  # noqa: BLE001
+                    msg = f"unexpected return value {r!r}"
+                if not msg:
+                    got_ex = list(names[len(cs):])
+                    want_ex = [f for f in fields if f in ex]
+                    if got_ex != want_ex:
+                        msg = f"extra fields returned {got_ex}, given {want_ex}"
+                    else:
+                        for nm, col in zip(names[len(cs):], columns[len(cs):]):
+                            if not (isinstance(col, Opaque) and col.tag == "col_" + nm):
+                                msg = f"extra field {nm} is bound to {col!r}"
+                                break
+                ctx.ob("C06.extra-fields", label, not msg, msg, None, "src/vector/backends/awkward_constructors.py")
+    ctx.anchor("extra-field cases", n, 60)
+
+
+_DTYPES = {  # name -> (numpy scalar type, dtype.kind, accepted as a coordinate type)
+    "int8": ("numpy.int8", "i", True), "int64": ("numpy.int64", "i", True), "uint8": ("numpy.uint8", "u", True), "uint32": ("numpy.uint32", "u", True),
+    "uint64": ("numpy.uint64", "u", True), "float32": ("numpy.float32", "f", True), "float64": ("numpy.float64", "f", True),
+    "bool": ("numpy.bool_", "b", False), "complex128": ("numpy.complex128", "c", False), "timedelta64[ns]": ("numpy.timedelta64", "m", False),
+    "datetime64[ns]": ("numpy.datetime64", "M", False), "str": ("numpy.str_", "U", False), "object": ("numpy.object_", "O", False),
+}
+
+
+def _coordinate_dtypes_rule(ctx, W):
+    """signed and unsigned integers and floats are coordinate types for every constructor; nothing else is"""
+    from ..peval import External
+
+    ctx.rule("C06.coordinate-dtypes", "the type guards of the array constructors (numpy._is_type_safe behind vector.array and every view/slice; awkward_constructors._is_type_safe behind "
+                                      "vector.Array) accept int8..int64, uint8..uint64 and float32/float64 fields and reject bool, complex, timedelta, datetime, string and object "
+                                      "fields - interpreted on a model of the dtype / Awkward type objects, through flat, list, regular and option-typed nesting")
+    fn_np = W.module_env("vector.backends.numpy").get("_is_type_safe")
+    fn_ak = W.module_env("vector.backends.awkward_constructors").get("_is_type_safe")
+    if not isinstance(fn_np, FuncVal) or not isinstance(fn_ak, FuncVal):
+        raise AnalysisError("anchor _is_type_safe (numpy / awkward_constructors) missing")
+    for name, (sc, kind, accepted) in _DTYPES.items():
+        # numpy: a structured array with one float64 field and one field of this dtype
+        oa = {}
+        fields = []
+        for i, (nm, (sc_, kind_, _)) in enumerate((("float64", _DTYPES["float64"]), (name, (sc, kind, accepted)))):
+            fo = Opaque(f"fielddtype{i}_{nm}", "notnone")
+            oa[fo.tag] = {"type": External(sc_), "kind": kind_, "name": nm.split("[")[0], "char": kind_}
+            fields.append(fo)
+        arr = Opaque("array_" + name, "ndarray")
+        oa[arr.tag] = {"dtype": fields}
+        I = Interp(W, opaque_attrs=oa)
+        try:
+            got = I.call_function(fn_np, [arr], {})
+        except PyRaise as e:
+            got = f"raises {e.exc}"
+        except Undecided as e:
+            raise AnalysisError(f"numpy._is_type_safe could not be interpreted for {name}: {e}") from None
+        ctx.ob("C06.coordinate-dtypes", f"numpy._is_type_safe[{name}]", got is accepted, f"returns {got!r} for a field of dtype {name}; documented: {'accepted' if accepted else 'rejected'}",
+               None, "src/vector/backends/numpy.py")
+        # awkward: ArrayType -> (ListType | OptionType)* -> RecordType -> [NumpyType(float64), (OptionType ->) NumpyType(name)]
+        for nest in ("flat", "list", "option-field"):
+            oa = {}
+            f0 = Opaque("nt_float64", "ak_numpytype")
+            oa[f0.tag] = {"primitive": "float64"}
+            f1 = Opaque("nt_" + name, "ak_numpytype")
+            oa[f1.tag] = {"primitive": name}
+            second = f1
+            if nest == "option-field":
+                second = Opaque("opt_" + name, "ak_optiontype")
+                oa[second.tag] = {"content": f1}
+            rec = Opaque("rec_" + name + nest, "ak_recordtype")
+            oa[rec.tag] = {"contents": [f0, second], "fields": ["x", "y"]}
+            inner = rec
+            if nest == "list":
+                inner = Opaque("list_" + name, "ak_listtype")
+                oa[inner.tag] = {"content": rec}
+            top = Opaque("arrtype_" + name + nest, "ak_arraytype")
+            oa[top.tag] = {"content": inner}
+            I = Interp(W, opaque_attrs=oa)
+            try:
+                got = I.call_function(fn_ak, [top], {})
+            except PyRaise as e:
+                got = f"raises {e.exc}"
+            except Undecided as e:
+                raise AnalysisError(f"awkward_constructors._is_type_safe could not be interpreted for {name} ({nest}): {e}") from None
+            ctx.ob("C06.coordinate-dtypes", f"awkward._is_type_safe[{name}; {nest}]", got is accepted,
+                   f"returns {got!r} for a field of type {name}; documented: {'accepted' if accepted else 'rejected'}", None, "src/vector/backends/awkward_constructors.py")
